@@ -15,6 +15,8 @@ size of the reference dataset; UNSORT - both returned arrays are indexed by
 the inverse permutation argsort(sorted_inds) and reshaped to the input shape.
 PER-DATASET - evaluate hands the correction function one element of
 <result>.pvalue (one dataset) at a time, never the pooled list.
+FLAGS-SRC - every definition of what evaluate hands to the result as flags
+contains a call of the correction function (no constant short cut).
 Not decided: behaviour under ties of argsort, floating-point division, the
 containment Bonferroni-flags-subset-of-Holm-flags as a numeric fact.
 '''
